@@ -39,7 +39,7 @@ def gen_history(rng, maxlen, maxe=12, maxps=4):
                 dgms[0][0][0] = max(bs) + 1
             if min(ps_) == max(ps_):
                 dgms[0][0][1] = max(ps_) + 1
-            ops.append(["fit", dgms, rng.random() < 0.5, nd > 1 or rng.random() < 0.3])
+            ops.append(["fit", dgms, rng.random() < 0.5, nd > 1 or rng.random() < 0.3, rng.random() < 0.4])    # last: through fit_transform
     return ops
 
 
@@ -56,7 +56,7 @@ def to_job(ops, e):
         else:
             skew = op[2]
             # ticks are (birth, persistence); with skew=True the code expects (birth, death)
-            out.append(["fit", [[[e.f(b), e.f(b + p) if skew else e.f(p)] for b, p in d] for d in op[1]], int(skew), int(op[3])])
+            out.append(["fit", [[[e.f(b), e.f(b + p) if skew else e.f(p)] for b, p in d] for d in op[1]], int(skew), int(op[3]), int(len(op) > 4 and op[4])])
     return {"ops": out, "tick": float(e.s)}
 
 
